@@ -185,9 +185,10 @@ def cases(tier):
     out.append(dict(name="literals and escapes", fn=literal, bounds="every UTC DateTime in years 1000..9999"))
     for nm in ("to_date_string", "to_time_string", "to_datetime_string", "to_atom_string", "to_w3c_string"):
         out.append(dict(name=nm, fn=named, params=dict(name=nm, kind="fixed"), bounds="every DateTime x whole-minute offsets"))
-    for fmt in ("YYYY-MM-DD HH:mm:ss.SSSSSS Z", "YYYYMMDDTHHmmssSSSSSSZZ", "D/M/YYYY h:mm:ss.SSS A Z"):
+    for fmt in ("YYYY-MM-DD HH:mm:ss.SSSSSS Z", "YYYYMMDDTHHmmssSSSSSSZZ", "D/M/YYYY h:mm:ss.SSS A Z",
+                "YYYY-MM-DD hh:mm:ss.SSSSSS A Z", "D/M/YYYY h:mm:ss.SSSSSS A ZZ"):   # 12-hour clock + meridiem (noon, midnight)
         for kind in ("utc", "fixed"):
-            if "SSS " in fmt:
+            if ".SSS " in fmt:
                 continue
             out.append(dict(name=f"from_format(format) {fmt} {kind}", fn=roundtrip, params=dict(fmt=fmt, kind=kind),
                             bounds="every DateTime in years 1000..9999 x whole-minute offsets"))
